@@ -141,25 +141,33 @@ func (req *pbRequest) Unmarshal(data []byte) error {
 			if wireType != 0 {
 				return fmt.Errorf("proto: wrong wireType = %d for field Seq", wireType)
 			}
-			n = code.DecodeVarint(data[offset:], &req.Seq)
+			if req.Seq, n = decodeVarint(data[offset:]); n == 0 {
+				return errMalformed
+			}
 			offset += n
 		case 2:
 			if wireType != 2 {
 				return fmt.Errorf("proto: wrong wireType = %d for field Upgrade", wireType)
 			}
-			n = code.DecodeBytes(data[offset:], &req.Upgrade)
+			if req.Upgrade, n = decodeBytes(data[offset:]); n == 0 {
+				return errMalformed
+			}
 			offset += n
 		case 3:
 			if wireType != 2 {
 				return fmt.Errorf("proto: wrong wireType = %d for field ServiceMethod", wireType)
 			}
-			n = code.DecodeString(data[offset:], &req.ServiceMethod)
+			if req.ServiceMethod, n = decodeString(data[offset:]); n == 0 {
+				return errMalformed
+			}
 			offset += n
 		case 4:
 			if wireType != 2 {
 				return fmt.Errorf("proto: wrong wireType = %d for field Args", wireType)
 			}
-			n = code.DecodeBytes(data[offset:], &req.Args)
+			if req.Args, n = decodeBytes(data[offset:]); n == 0 {
+				return errMalformed
+			}
 			offset += n
 		}
 	}
@@ -278,19 +286,25 @@ func (res *pbResponse) Unmarshal(data []byte) error {
 			if wireType != 0 {
 				return fmt.Errorf("proto: wrong wireType = %d for field Seq", wireType)
 			}
-			n = code.DecodeVarint(data[offset:], &res.Seq)
+			if res.Seq, n = decodeVarint(data[offset:]); n == 0 {
+				return errMalformed
+			}
 			offset += n
 		case 2:
 			if wireType != 2 {
 				return fmt.Errorf("proto: wrong wireType = %d for field Error", wireType)
 			}
-			n = code.DecodeString(data[offset:], &res.Error)
+			if res.Error, n = decodeString(data[offset:]); n == 0 {
+				return errMalformed
+			}
 			offset += n
 		case 3:
 			if wireType != 2 {
 				return fmt.Errorf("proto: wrong wireType = %d for field Reply", wireType)
 			}
-			n = code.DecodeBytes(data[offset:], &res.Reply)
+			if res.Reply, n = decodeBytes(data[offset:]); n == 0 {
+				return errMalformed
+			}
 			offset += n
 		}
 	}
